@@ -38,10 +38,10 @@ func endsWithContinue(b *ast.BlockStmt) bool {
 
 func genQueryBatchFacts(repo string) string {
 	type facts struct {
-		recognised, status, length, data, collect, errorsAbort, execLen, nodeMissing, nodeNotMap, rootList bool
+		recognised, status, length, data, collect, errorsAbort, execLen, nodeMissing, nodeNotMap, rootList, safeID bool
 	}
 	var F facts
-	foundFetch, foundRange, foundAssign, foundQuery, foundNodeLookup, foundNodeCast, foundRootLoop := false, false, false, false, false, false, false
+	foundFetch, foundRange, foundAssign, foundQuery, foundNodeLookup, foundNodeCast, foundRootLoop, foundIDCmp := false, false, false, false, false, false, false, false
 
 	// sendRequest: status check
 	if fd := findFunc(parseFile(filepath.Join(repo, "queryer", "fetch.go")), "sendRequest", "MultiOpQueryer"); fd != nil && fd.Body != nil {
@@ -177,9 +177,24 @@ func genQueryBatchFacts(repo string) string {
 			return true
 		})
 	}
-	F.recognised = foundFetch && foundRange && foundAssign && foundQuery && foundNodeLookup && foundNodeCast && foundRootLoop
+	// getLeftEntityPosition: how two decoded ids are compared
+	if fd := findFunc(parseFile(filepath.Join(repo, "executor", "utils.go")), "getLeftEntityPosition", ""); fd != nil && fd.Body != nil {
+		ast.Inspect(fd.Body, func(n ast.Node) bool {
+			ifs, ok := n.(*ast.IfStmt)
+			if !ok || ifs.Init == nil || !strings.HasPrefix(norm(ifs.Init), "lID, ok := lMap[common.IDFieldName]") {
+				return true
+			}
+			foundIDCmp = true
+			switch norm(ifs.Cond) {
+			case "ok && reflect.DeepEqual(lID, id)", "ok && reflect.DeepEqual(id, lID)":
+				F.safeID = true
+			}
+			return true
+		})
+	}
+	F.recognised = foundIDCmp && foundFetch && foundRange && foundAssign && foundQuery && foundNodeLookup && foundNodeCast && foundRootLoop
 	var b strings.Builder
-	b.WriteString("-- GENERATED by harness/cmd/extract from /repo/queryer/multiop_queryer.go, queryer/fetch.go, executor/depth_executor_query.go, executor/depth_executor_parse.go, executor/result.go — do not edit.\n")
+	b.WriteString("-- GENERATED by harness/cmd/extract from /repo/queryer/multiop_queryer.go, queryer/fetch.go, executor/depth_executor_query.go, executor/depth_executor_parse.go, executor/result.go, executor/utils.go — do not edit.\n")
 	b.WriteString(`namespace PebblesVerif.Gen.QueryBatchFacts
 structure Facts where
   recognised : Bool
@@ -192,17 +207,18 @@ structure Facts where
   nodeMissingIsError : Bool
   nodeNotMapIsError : Bool
   rootListGuard : Bool
+  safeIdCompare : Bool
   deriving DecidableEq, Repr
 /-- the shape of the decode path the property theorems of C09/C10 need -/
 def expected : Facts :=
   { recognised := true, statusCheck := true, lengthCheck := true, dataCheck := true, collectAllErrors := true,
     errorsAbort := true, executorLenCheck := true, nodeMissingIsError := true, nodeNotMapIsError := true,
-    rootListGuard := true }
+    rootListGuard := true, safeIdCompare := true }
 `)
 	fmt.Fprintf(&b, "def facts : Facts :=\n  { recognised := %s, statusCheck := %s, lengthCheck := %s, dataCheck := %s, collectAllErrors := %s,\n"+
-		"    errorsAbort := %s, executorLenCheck := %s, nodeMissingIsError := %s, nodeNotMapIsError := %s,\n    rootListGuard := %s }\n",
+		"    errorsAbort := %s, executorLenCheck := %s, nodeMissingIsError := %s, nodeNotMapIsError := %s,\n    rootListGuard := %s, safeIdCompare := %s }\n",
 		leanBool(F.recognised), leanBool(F.status), leanBool(F.length), leanBool(F.data), leanBool(F.collect),
-		leanBool(F.errorsAbort), leanBool(F.execLen), leanBool(F.nodeMissing), leanBool(F.nodeNotMap), leanBool(F.rootList))
+		leanBool(F.errorsAbort), leanBool(F.execLen), leanBool(F.nodeMissing), leanBool(F.nodeNotMap), leanBool(F.rootList), leanBool(F.safeID))
 	b.WriteString("end PebblesVerif.Gen.QueryBatchFacts\n")
 	return b.String()
 }
